@@ -396,7 +396,16 @@ def run(repo: Repo, rep: Report, tier: str) -> None:
                 k = node.ast.value.value
                 d = v + k if isinstance(node.ast.op, ast.Add) else v - k if isinstance(node.ast.op, ast.Sub) else v
             elif node.kind == "stmt" and isinstance(node.ast, ast.Assign) and any(isinstance(t, ast.Attribute) and t.attr == "recursion_depth" for t in node.ast.targets):
-                d = 99  # overwritten: not a counter step
+                val = node.ast.value
+                # `x.recursion_depth = x.recursion_depth + 1` is the same counter step
+                if isinstance(val, ast.BinOp) and isinstance(val.op, (ast.Add, ast.Sub)) and isinstance(val.left, ast.Attribute) and val.left.attr == "recursion_depth" \
+                        and isinstance(val.right, ast.Constant) and isinstance(val.right.value, int):
+                    d = v + val.right.value if isinstance(val.op, ast.Add) else v - val.right.value
+                elif isinstance(val, ast.Call) and dotted(val.func) == "max" and len(val.args) == 2 and any(
+                        isinstance(a, ast.BinOp) and isinstance(a.op, ast.Sub) and isinstance(a.left, ast.Attribute) and a.left.attr == "recursion_depth" for a in val.args):
+                    d = v - 1  # `max(0, depth - 1)`: the clamped decrement
+                else:
+                    d = 99  # overwritten: not a counter step
             if abs(d) > 5 and d != 99:
                 return []
             return [d]
